@@ -119,7 +119,9 @@ def run_case(case):
                 # almost rectangular (angles 0.004 - 0.005 degrees off 90, off-diagonal components 4e-4 - 7e-4 nm): a triclinic cell all the same
                 cells = [{"kind": "near-ortho", "L": [6.0, 7.5, 8.25], "A": [90.004, 89.995, 90.0045]}] * case["nf"]
             else:
-                cells = [{"kind": "tric", "L": [6.0, 7.5, 8.25], "A": [75.0, 85.0, 100.0]}] * case["nf"]
+                # (a skewed cell that differs from frame to frame)
+                cells = [{"kind": "tric", "L": [6.0 + 0.25 * f_, 7.5, 8.25 - 0.125 * f_], "A": [75.0 + 2.0 * f_, 85.0, 100.0 - 1.5 * f_]}
+                         for f_ in range(case["nf"])]
             Hs = gen.cell_matrices(cells)
             y = x.copy() + 3.0
             x = x + 3.0
